@@ -68,6 +68,10 @@ def form_lines(st):
     if f == 'tryexc':
         # the doctest itself handles an exception raised by called code
         return _L("try:", "    sim_x%d = S.op('%s')" % (i, p[0]), "except LookupError:", "    S.emit('%s')" % p[1])
+    if f == 'chainexc':
+        # an exception raised while another one is being handled: the one that
+        # propagates is the second, the first is only its context
+        return _L("try:", "    sim_x%d = S.op('%s')" % (i, p[0]), "except Exception:", "    sim_y%d = S.op('%s')" % (i, p[1]))
     if f == 'multiline':
         return _L("S.op(", "    '%s'" % p[0], ")")
     if f == 'multicall':
@@ -253,6 +257,10 @@ def exc_last_line(exc):
     return '%s: %s' % (shown, msg)
 
 
+def inner_last_line(st):
+    return "KeyError: 'inner %s'" % tok(st['pts'][0])
+
+
 def ell_prefix(st):
     """the part of the statement's output line an 'ell' want spells out (the
     point id makes it unique to this statement)"""
@@ -279,6 +287,9 @@ def want_lines_for(st, window_nominal):
             lines = [TB_HEADER, '  File "<sim>", line 1, in <module>', '    whatever()', last]
         elif w == 'tbbare':
             lines = [TB_HEADER, last]
+        elif w == 'tbinner':
+            # describes the exception that was being handled (the context), not the one raised
+            lines = [TB_HEADER, '    ...', inner_last_line(st)]
         elif w == 'tbdots':
             # the stack abbreviated by an *unindented* ellipsis line
             lines = [TB_HEADER, '...', last]
@@ -311,6 +322,9 @@ def want_lines_for(st, window_nominal):
         return text.rstrip('\n').split('\n')
     elif w == 'text':
         text = 'SomeWantText%d\n' % st['i']
+    elif w == 'none':
+        # the repr of the value of an expression statement that evaluates to None
+        text = 'None\n'
     elif w == 'coro':
         # repr of a coroutine object up to its address
         text = '<coroutine object Peer.aop at ...>\n'
@@ -587,11 +601,18 @@ def nominal_plan(world):
     nom = {}
     for dtid, dt, mod in iter_doctests(world):
         for st in dt['steps']:
-            if st.get('exc') and st.get('nominal_raise', True):
+            if st.get('exc') and st.get('nominal_raise', True) and st['form'] != 'chainexc':
                 f = dict(st['exc'])
                 f['kind'] = 'raise'
                 f['nominal'] = True
                 nom[st['pts'][st.get('raise_at', 0)]] = f
+            if st['form'] == 'chainexc':
+                nom[st['pts'][0]] = {'kind': 'raise', 'exc': 'KeyError', 'msg': 'inner ' + tok(st['pts'][0]), 'nominal': True}
+                if st.get('exc'):
+                    f = dict(st['exc'])
+                    f['kind'] = 'raise'
+                    f['nominal'] = True
+                    nom[st['pts'][1]] = f
             if st['form'] == 'tryexc' and st.get('nominal_raise', True):
                 nom[st['pts'][0]] = {'kind': 'raise', 'exc': 'KeyError', 'msg': 'handled', 'nominal': True}
     return nom
